@@ -28,7 +28,14 @@ func TestVerifC06_FragmentImport(outer *testing.T) {
 				t.Fatalf("setBit: %v", err)
 			}
 		}
-		before := f.storage.Slice()
+		// an import of > MaxOpN bits queues a snapshot that rewrites f.storage in the background: read under the
+		// fragment lock, as every reader in the server does
+		stored := func() []uint64 {
+			f.mu.Lock()
+			defer f.mu.Unlock()
+			return f.storage.Slice()
+		}
+		before := stored()
 		n := rapid.IntRange(1, 3).Draw(t, "nimports")
 		c := vkit.NewCase()
 		defer c.Done()
@@ -49,12 +56,12 @@ func TestVerifC06_FragmentImport(outer *testing.T) {
 			f.mu.Unlock()
 			if err != nil {
 				rejected++
-				if got := f.storage.Slice(); !vc06EqU64(got, before) {
+				if got := stored(); !vc06EqU64(got, before) {
 					t.Fatalf("fragment.importRoaring(%s, % x) was rejected (%v) but changed the stored bits: before %v after %v", label, data, err, before, got)
 				}
 				c.Class("rejected:" + vc06ErrLabel(err))
 			} else {
-				before = f.storage.Slice()
+				before = stored()
 				c.ClassIf(!unmutated, "acceptedMutated").ClassIf(unmutated, "acceptedValid")
 			}
 		}
